@@ -465,7 +465,10 @@ func (router_info *RouterInfo) RouterCapabilities() string {
 		log.WithError(err).Error("Failed to create I2PString for 'caps'")
 		return ""
 	}
-	// return string(router_info.options.Values().Get(str))
+	// An uninitialized or partially parsed RouterInfo has no options mapping.
+	if router_info.options == nil {
+		return ""
+	}
 	caps := string(router_info.options.Values().Get(str))
 	log.WithField("capabilities", caps).Debug("Retrieved RouterCapabilities")
 	return caps
@@ -479,7 +482,10 @@ func (router_info *RouterInfo) RouterVersion() string {
 		log.WithError(err).Error("Failed to create I2PString for 'router.version'")
 		return ""
 	}
-	// return string(router_info.options.Values().Get(str))
+	// An uninitialized or partially parsed RouterInfo has no options mapping.
+	if router_info.options == nil {
+		return ""
+	}
 	version := string(router_info.options.Values().Get(str))
 	log.WithField("version", version).Debug("Retrieved RouterVersion")
 	return version
